@@ -390,3 +390,47 @@ def expand(func, node, keep=(), depth=0):
     return out
 
 
+
+
+def inline_pure(resolve, node, depth=0):
+    """copy of an expression in which a call of a repository function whose body is a single `return E;` is replaced by E with
+    the parameters replaced by the (inlined) arguments - predicate helpers such as `static bool HasX(a, b) { return a == K && ...; }`
+    then read like the inline condition. resolve: callee id -> [Func]."""
+    if node is None or not isinstance(node, dict):
+        return node
+    out = {}
+    for key, v in node.items():
+        if isinstance(v, dict):
+            out[key] = inline_pure(resolve, v, depth)
+        elif isinstance(v, list):
+            out[key] = [inline_pure(resolve, x, depth) if isinstance(x, dict) else x for x in v]
+        else:
+            out[key] = v
+    if out.get("k") == "call" and out.get("cid") and depth < 3:
+        gs = [g for g in resolve(out["cid"]) if g.body is not None]
+        if len(gs) == 1:
+            g = gs[0]
+            body = g.body.get("ch", []) if g.body.get("k") == "block" else [g.body]
+            body = [b for b in body if b is not None and b.get("k") not in ("null_stmt",)]
+            if len(body) == 1 and body[0].get("k") == "return" and body[0].get("e") is not None and len(g.params) == len(out.get("args", [])):
+                sub = {(p.get("d") or p["n"]): a for p, a in zip(g.params, out["args"])}
+
+                def subst(x):
+                    if not isinstance(x, dict):
+                        return x
+                    if x.get("k") == "ref" and x.get("dk") == "parm" and (x.get("d") or x["n"]) in sub:
+                        return sub[x.get("d") or x["n"]]
+                    y = {}
+                    for k2, v2 in x.items():
+                        if isinstance(v2, dict):
+                            y[k2] = subst(v2)
+                        elif isinstance(v2, list):
+                            y[k2] = [subst(z) if isinstance(z, dict) else z for z in v2]
+                        else:
+                            y[k2] = v2
+                    return y
+                e = body[0]["e"]
+                while e is not None and e.get("k") == "cast":
+                    e = e["e"]
+                return inline_pure(resolve, subst(e), depth + 1)
+    return out
